@@ -8,6 +8,7 @@
 -/
 import GocoinV.Proofs.C10Size
 import GocoinV.Proofs.C10Snap
+import GocoinV.Proofs.C10Keys
 namespace GocoinV.Props.C10
 open GocoinV GocoinV.UtxoRec GocoinV.ScriptCompress GocoinV.CompactSize
 
@@ -188,6 +189,27 @@ theorem snapshot_records_roundtripC (K : KeyOps) (hK : K.Sound) (height : Nat) (
       exact ⟨newRecC_serializeC K hK r (hwf r (by simp)) b hser.1,
         ih bt (fun x hx => hwf x (List.mem_cons_of_mem _ hx)) hser.2⟩
 
+
+/-! ## the key functions the oracle actually runs -/
+
+/-- `mathKeys` — the arithmetic rendering of ParsePubkey(range check + curve equation) / SetXO
+    (`c^((p+1)/4)`, sign by parity) / GetPublicKey that the oracle executes and the harness compares
+    with secp256k1 on every run — satisfies `KeyOps.Sound`, given only that the field modulus
+    p = 2^256 - 2^32 - 977 is prime (Fermat's little theorem + no zero divisors; primality itself is
+    left to C08's Pratt certificate). -/
+theorem mathKeys_sound_of_prime (hp : Nat.Prime P) : mathKeys.Sound :=
+  mathKeys_sound hp
+
+/-- The compressed format is lossless for the model instance that is tied to the code: script round
+    trip, whole-record round trip and single-output lookup, with `Nat.Prime P` as the only assumption
+    about secp256k1. -/
+theorem compressed_lossless_mathKeys (hp : Nat.Prime P) :
+    (∀ s c, compress mathKeys s = some c → decompress mathKeys c = .ok s) ∧
+    (∀ r b, WFRecC r → serializeC mathKeys r = some b →
+      newRecC mathKeys b = .ok r ∧ ∀ vout, oneC mathKeys b vout = .ok (outOf r vout)) :=
+  ⟨fun s c h => decompress_compress mathKeys (mathKeys_sound hp) s c h,
+   fun r b hw hs => ⟨newRecC_serializeC mathKeys (mathKeys_sound hp) r hw b hs,
+     fun vout => oneC_serializeC mathKeys (mathKeys_sound hp) r hw b hs vout⟩⟩
 
 /-! ## non-vacuity: the hypotheses of the theorems above are satisfiable on concrete data -/
 
